@@ -164,13 +164,17 @@ def build(tier, seed):
     thorough = tier == "thorough"
     cases = [{"id": f"case-{i}", "i": i} for i in range(15000 if thorough else 700)]
 
+    # several connections in one capture: every exported packet carries the addresses of ITS connection, also when connections share addresses
+    cases += [{"id": f"scene-{i}", "i": i, "scene": True} for i in range(3000 if thorough else 120)]
+
     def evalfn(case):
-        return eval_case(case, random.Random(engine.subseed("C07", seed, case["id"])))
+        rng = random.Random(engine.subseed("C07", seed, case["id"]))
+        return eval_scene(case, rng) if case.get("scene") else eval_case(case, rng)
 
     return dict(cases=cases, evalfn=evalfn, level="exploration", min_nontrivial=150,
                 rule="TLS and QUIC connections as in C01/C02 with random MAC/IP/port values (all-zero, broadcast, ASCII-looking MACs, 0.0.0.0, 255.255.255.255, IPv6 with "
                      "embedded zeros), every segmentation class (records spanning 1..many packets), timestamp styles {plain, ...000001/...999999 edges, year 2100, 2^30/2^31 "
-                     "second boundaries, dense +1us}, -m variants. Class = (protocol, version, segmentation, timestamp style, ip version, mapping); non-trivial = at least one "
+                     "second boundaries, dense +1us}, -m variants; scenes of 2-4 connections whose endpoints share hosts, ports or addresses (same addresses with other MACs, mirrored roles, IPv4/IPv6 twins). Class = (protocol, version, segmentation, timestamp style, ip version, mapping); non-trivial = at least one "
                      "exported data packet was attributed to its record / datagram and checked",
                 assumptions=["timestamps below year 2242 (float64 seconds keep microsecond resolution)"])
 
@@ -227,4 +231,45 @@ def eval_case(case, rng):
     out["nontrivial"] = n > 0
     if msgs:
         return dict(out, v="violated", msg=f"{fl.label} {fl.segkind} ts={style}: " + "; ".join(msgs[:3]), files=dict(files, **{"out.pcapng": res.out}))
+    return dict(out, v="held")
+
+
+def eval_scene(case, rng):
+    n = rng.choice([2, 2, 3, 4])
+    pattern = rng.choice(["same-hosts-other-macs", "same-hosts-other-macs", "same-client-host", "mirrored", "v4-v6-twins", "same-server", "small-pool"])
+    eps = gen.distinct_eps(rng, n, pattern)
+    flows = []
+    for i, ep in enumerate(eps):
+        if rng.random() < 0.3:
+            flows.append(gen.random_quic_flow(rng, i, ep=ep, napp=rng.choice([3, 6])))
+        else:
+            flows.append(gen.random_tls_flow(rng, i, ep=ep, nmax=6, segkinds=("mss", "random", "records", "whole"), min_records=1))
+    items = scene.merge(flows, rng, rng.choice(["concat", "random", "bursty", "roundrobin"]))
+    style = rng.choice(scene.TS_STYLES)
+    scene.stamp(items, rng, style)
+    extra, mapargs = [], None
+    if rng.random() < 0.25:
+        mapargs = [] if rng.random() < 0.5 else [f"443:{tcpcap.map_target(rng)}"]
+        extra = ["-m"] + mapargs
+    res, files, argv = e2e.run_capture(scene.capture(items), scene.keylog_text(flows, rng), extra)
+    out = {"cls": ["scene", pattern, n, tuple(sorted({f.kind for f in flows})), "map" if mapargs is not None else ""], "tags": [f"scene:{pattern}"],
+           "sample": {"case": case["id"], "connections": [f.label + " " + f.ep.describe() + " macs " + f.ep.cmac.hex() + "/" + f.ep.smac.hex() for f in flows], "args": extra}}
+    fail = e2e.run_failed(res)
+    if fail:
+        return dict(out, v="inconclusive" if fail.startswith("INCONCLUSIVE") else "violated", msg=fail, files=files)
+    an = outparse.Analysis(res.out)
+    msgs, n_att, mine = [], 0, set()
+    for fl in flows:
+        m, k = (check_quic_flow if fl.kind == "quic" else check_tls_flow)(an, fl, mapargs)
+        n_att += k
+        mine |= set(gen.flow_keys(fl, mapargs))
+        msgs += [f"{fl.label} {fl.ep.describe()}: {x}" for x in m[:2]]
+    stray = [p for p in an.pkts if (p.src, p.sport, p.dst, p.dport) not in mine]
+    if stray:
+        p = stray[0]
+        msgs.append(f"exported packet {p.src.hex()}:{p.sport}->{p.dst.hex()}:{p.dport} carries the addresses/ports of none of the {len(flows)} connections")
+    out["mon"] = {"exported_packets_attributed": n_att}
+    out["nontrivial"] = n_att > 0
+    if msgs:
+        return dict(out, v="violated", msg=f"{pattern}, ts={style}: " + "; ".join(msgs[:3]), files=dict(files, **{"out.pcapng": res.out}))
     return dict(out, v="held")
